@@ -43,6 +43,9 @@ POSITIONAL = {
     # not a paragraph continuation
     "X": [["1. a", "- a"], ["   b", "  b", ""], ["2. > q", "- > q", "2. >", "- > # h"], ["   >", "  >", "   > # h", "  > ```", "   > r"],
           ["   > s", "  > s", "", "   > ```"]],
+    # three nested lists, then a marker of another kind at the column of the middle list, then an indented leaf
+    "Y": [["- a", "1. a"], ["  1. b", "   1. b", "  - b", "   - b"], ["     - c", "      1. c", "    - c"], ["    + z", "     - z", "   + z", "    1) z"],
+          ["    # y", "     # y", "    <div>", "    y", ""]],
     # containers three deep opened on one line, continued, then a blank line of the outer container and a line that belongs only to it
     "P": [["> 1. > q", "> - > q", "- 1. > q", "> > 1. q", "1. > - q"], [">    > 1. i", ">   > - i", ">    > m", ">    > > d", "  1. > m", "     > - i"],
           [">", "", "> >"], ["> t", "t", ">    t", "> 2. n", "> - n", "  t"]],
